@@ -4,7 +4,10 @@ func init() {
 	register(propC01{})
 	register(propC02{})
 	register(propC07{})
+	register(propC08{})
 	register(propC10{})
 	register(propC11{})
 	register(propC12{})
+	register(propC17{})
+	register(propC18{})
 }
